@@ -59,6 +59,7 @@ m = {
    {'name': 'defer', 'path': 'simv/focus_defer.py', 'serves_properties': ['C16'], 'kind_free_text': 'seeded delivery histories into the real DeferQueue/non-seekable output manager'},
    {'name': 'bw', 'path': 'simv/focus_bw.py', 'serves_properties': ['C13'], 'kind_free_text': 'virtual-time simulation of the real leaky-bucket bandwidth limiter'},
    {'name': 'pp', 'path': 'simv/ppworld.py', 'serves_properties': ['C19', 'C02', 'C06'], 'kind_free_text': 'in-process replay of the process-pool downloader protocol'},
+   {'name': 'legacy', 'path': 'simv/legacyworld.py', 'serves_properties': ['C01', 'C02', 'C05', 'C06'], 'kind_free_text': 'real legacy S3Transfer upload_file/download_file against SimS3/SimFS'},
    {'name': 'crt', 'path': 'simv/crtworld.py', 'serves_properties': ['C20'], 'kind_free_text': 'real crt.py against a stub awscrt (SimCRT)'},
    {'name': 'kernel', 'path': 'simv/kernel.py', 'serves_properties': sorted(claimed), 'kind_free_text': 'deterministic scheduler: baton-passing real threads, SimLock, virtual time, seeded choosers, replay'},
  ],
